@@ -1,16 +1,8 @@
-"""translator whitelist for C13: the bmp reader's row offset (where sub-rectangle and scanline reads seek to)"""
+"""translator whitelist for C12: the bmp row pitch, computed independently in the writer (spn) and in the reader (_pitch)"""
 from cxx2lean import Sym
-H = "boost/gil/extension/io/bmp/detail/read.hpp"
-SYMS = [
-    Sym(H, r"long get_offset\( std::ptrdiff_t pos \)", "bmp_get_offset",
-        [("pos", "std::ptrdiff_t"), ("height", "int32_t"), ("offset", "uint32_t"), ("pitch", "std::size_t")], ret="long",
-        subst=[(r"this->_info\._height", "height"), (r"this->_info\._offset", "offset"), (r"\b_pitch\b", "pitch")],
-        doc="bmp reader::get_offset(pos): file offset of image row pos (members _info._height, _info._offset, _pitch as parameters)"),
-]
 RD = "boost/gil/extension/io/bmp/detail/read.hpp"
 WR = "boost/gil/extension/io/bmp/detail/write.hpp"
-SYMS += [
-    # the row pitch, computed independently in the writer and in the reader (the mechanism C12 / C13 name first)
+SYMS = [
     Sym(WR, r"std::size_t spn = ([^;]*);", "bmp_writer_spn", [("w", "std::ptrdiff_t"), ("nch", "std::size_t")], ret="std::size_t", expr=True,
         subst=[(r"view\.width\(\)", "w"), (r"num_channels< View >::value", "nch")],
         doc="bmp writer::write: spn, bytes per stored row (view.width() and num_channels as parameters)"),
@@ -20,4 +12,4 @@ SYMS += [
     Sym(RD, r"_pitch = (\(_pitch \+ 3\) & ~3);", "bmp_reader_pitch_round", [("pitch", "std::size_t")], ret="std::size_t", expr=True,
         subst=[(r"\b_pitch\b", "pitch")], doc="bmp reader::apply: the pitch rounded up to a multiple of 4"),
 ]
-NAMESPACE = "GilVerif.Gen.C13"
+NAMESPACE = "GilVerif.Gen.C12"
